@@ -74,6 +74,24 @@ fn check_case(cfg: &Cfg, rep: &mut Report, tag: &str, nv: usize, no: usize, data
                     if i == j && !(c[[i, i]] >= 0.0) { bad.push(format!("cov has a negative diagonal entry | [{}] {} [{}]", i, c[[i, i]], lname)); }
                 } }
             }
+            // f32 covariance against the same exact value (the small alphabets are exactly representable in f32)
+            if lname == "c" && tag == "small" {
+                let b32: Array2<f32> = base.mapv(|x| x as f32);
+                const U32: f64 = 5.960464477539063e-8;
+                for ddof in [0.0f32, 1.0, 0.5] {
+                    if ddof as f64 >= no as f64 { continue; }
+                    if let Ok(c) = b32.cov(ddof) {
+                        let den = Q::from_f64(no as f64 - ddof as f64);
+                        for i in 0..nv { for j in 0..nv {
+                            let exact = s[i][j].div(&den);
+                            let dm = 2.0 * no as f64 * U32 * maxabs;
+                            let tol = (4.0 * (no as f64 + 2.0) * U32 * sa[i][j].to_f64() + (no as f64).sqrt() * dm * (sa[i][i].to_f64().sqrt() + sa[j][j].to_f64().sqrt()) + no as f64 * dm * dm) / den.to_f64() * 2.0;
+                            let err = err_of(c[[i, j]] as f64, &exact);
+                            if !(err <= tol) { bad.push(format!("f32 cov differs from sum (x_i - xbar_i)(x_j - xbar_j) / (n - ddof) | [{},{}] got {} exact {} error {:e} bound {:e} ddof={}", i, j, c[[i, j]], exact.to_f64(), err, tol, ddof)); }
+                        } }
+                    } else { bad.push("f32 cov returned an error | ".into()); }
+                }
+            }
             // Pearson correlation (needs non-constant variables)
             if (0..nv).all(|i| s[i][i].is_pos()) {
                 let p = match v.pearson_correlation() { Ok(p) => p, Err(e) => { bad.push(format!("pearson_correlation returned an error | {:?} [{}]", e, lname)); break 'body; } };
@@ -91,6 +109,29 @@ fn check_case(cfg: &Cfg, rep: &mut Report, tag: &str, nv: usize, no: usize, data
                     if i == j && !((got - 1.0).abs() <= rel) { bad.push(format!("pearson_correlation diagonal is not 1 | [{}] {} [{}]", i, got, lname)); }
                     if !((got - p[[j, i]]).abs() <= 2.0 * rel) { bad.push(format!("pearson_correlation is not symmetric | [{},{}] [{}]", i, j, lname)); }
                 } }
+                // extreme magnitudes: scaling every value by a power of two is exact in every step of the definition
+                // (means, centring, products, sums, square roots of even powers), so the correlation must not move
+                if lname == "c" {
+                    for k in [270i32, -270] {
+                        let sc = base.mapv(|x| x * 2f64.powi(k));
+                        match sc.pearson_correlation() {
+                            Ok(ps) => { for i in 0..nv { for j in 0..nv { if !((ps[[i, j]] - p[[i, j]]).abs() <= 1e-12) { bad.push(format!("pearson_correlation changes when the data are scaled by a power of two (very large / very small finite data) | 2^{} [{},{}] {} vs {}", k, i, j, ps[[i, j]], p[[i, j]])); } } } }
+                            Err(e) => bad.push(format!("pearson_correlation of scaled data returned an error | {:?}", e)),
+                        }
+                        if let (Ok(cs), Ok(c1)) = (sc.cov(1.0f64.min(no as f64 - 0.5)), base.cov(1.0f64.min(no as f64 - 0.5))) {
+                            for i in 0..nv { for j in 0..nv { let want = c1[[i, j]] * 2f64.powi(k) * 2f64.powi(k); if !((cs[[i, j]] - want).abs() <= 1e-12 * want.abs()) { bad.push(format!("cov does not scale with the square of a power-of-two factor | 2^{} [{},{}] {} vs {}", k, i, j, cs[[i, j]], want)); } } }
+                        }
+                    }
+                    // f32: the same data (exactly representable, well conditioned: the small alphabet only), at scale 1, 2^33 and 2^-37
+                    let b32: Array2<f32> = base.mapv(|x| x as f32);
+                    for k in (if tag == "small" { vec![0i32, 33, -37] } else { vec![] }) {
+                        let sc = b32.mapv(|x| x * 2f32.powi(k));
+                        match sc.pearson_correlation() {
+                            Ok(ps) => { for i in 0..nv { for j in 0..nv { if !(((ps[[i, j]] as f64) - p[[i, j]]).abs() <= 1e-4) { bad.push(format!("f32 pearson_correlation differs from the f64 result | scale 2^{} [{},{}] {} vs {}", k, i, j, ps[[i, j]], p[[i, j]])); } } } }
+                            Err(e) => bad.push(format!("f32 pearson_correlation returned an error | {:?}", e)),
+                        }
+                    }
+                }
                 // invariances (exact transformations of the data: scaling by 4 and shifting by an integer; negating variable 0)
                 if lname == "c" && nv >= 1 {
                     let mut t = base.clone();
@@ -119,7 +160,7 @@ fn check_case(cfg: &Cfg, rep: &mut Report, tag: &str, nv: usize, no: usize, data
 }
 
 pub fn cov(cfg: &mut Cfg, rep: &mut Report) {
-    rep.bound = "f64, rows = variables, columns = observations: every matrix over {-2, 0, 1, 2.5} for (1..2 variables) x (2..3 observations) and 3 x 2, sampled matrices over {-3,-0.5,0,1,2.25,7.75} up to 8 variables x 64 observations (thorough) and matrices with a large mean (1e6, 1e8 + small offsets); 4 memory layouts (C, F, stepped, reversed); ddof in {0, 1, 0.5}; cov vs the exact rational value of the definition within a stated forward-error bound, symmetry, non-negative diagonal; Pearson vs S_ij / sqrt(S_ii S_jj), range, unit diagonal, symmetry, invariance under x -> 4x + 3 and sign flip under negation".to_string();
+    rep.bound = "f64, rows = variables, columns = observations: every matrix over {-2, 0, 1, 2.5} for (1..2 variables) x (2..3 observations) and 3 x 2, sampled matrices over {-3,-0.5,0,1,2.25,7.75} up to 8 variables x 64 observations (thorough) and matrices with a large mean (1e6, 1e8 + small offsets); 4 memory layouts (C, F, stepped, reversed); ddof in {0, 1, 0.5}; cov vs the exact rational value of the definition within a stated forward-error bound, symmetry, non-negative diagonal; Pearson vs S_ij / sqrt(S_ii S_jj), range, unit diagonal, symmetry, invariance under x -> 4x + 3, under scaling by 2^270 and 2^-270 (very large / very small finite data) and sign flip under negation; f32: cov vs the exact value, pearson at scales 1, 2^33, 2^-37 vs the f64 result".to_string();
     let al = [-2.0f64, 0.0, 1.0, 2.5];
     for (nv, no) in [(1usize, 2usize), (1, 3), (2, 2), (2, 3), (3, 2)] {
         let size = nv * no;
